@@ -67,6 +67,8 @@ class History:
         self.finished = {}    # name -> number of eat_chunk calls before finish()
         self.fed_after_finish = []   # (name, exc type) eat_chunk after finish()
         self.ended = None     # how the reader's loop ended
+        self.at_cut = None    # snapshot taken when an exception surfaced
+        self.drained = False
 
 
 def instrument(insp, name, faults, hist):
@@ -211,6 +213,28 @@ def _run_session(data, case, faults, src_fault):
             break
         hist.got.append(chunk)
         op += 1
+    if hist.surfaced is not None and case.get('drain') and \
+            src.raised is None:
+        # a reader that catches the abort and keeps reading (draining the
+        # upload, say): everything up to the cut is judged on a snapshot,
+        # afterwards only "a failed inspector is never fed again" is
+        hist.at_cut = {'eats': {n: list(v) for n, v in hist.eats.items()},
+                       'reads': src.reads, 'delivered': len(src.delivered),
+                       'after_raise': dict(hist.after_raise)}
+        for _k in range(case['drain']):
+            try:
+                if pers == 'file':
+                    if not w.read(512):
+                        break
+                else:
+                    next(w)
+            except core.StepCapExceeded:
+                raise
+            except StopIteration:
+                break
+            except Exception:
+                pass
+        hist.drained = True
     close_exc = None
     try:
         w.close()
@@ -226,6 +250,24 @@ def judge(case, hist, src, w, close_exc, viol):
     names = list(hist.eats)
     order = [n for n in case['order'] if n in names]
     delivered = src.delivered        # what the source produced, in order
+    eats = hist.eats
+    reads = src.reads
+    after_raise = hist.after_raise
+    if hist.at_cut is not None:
+        # the reader went on after the abort: rules about the stream up to
+        # the cut use the snapshot
+        delivered = src.delivered[:hist.at_cut['delivered']]
+        eats = hist.at_cut['eats']
+        reads = hist.at_cut['reads']
+        after_raise = hist.at_cut['after_raise']
+        for n, cnt in hist.after_raise.items():
+            if n != expected and cnt > after_raise.get(n, 0):
+                viol('failed_inspector_fed_again', inspector=n,
+                     calls=cnt, failed_at=hist.raised[n][0],
+                     after_abort=True)
+                break
+    # failures that happened up to the cut (a drain may add later ones)
+    raised = {n: r for n, r in hist.raised.items() if r[0] < len(eats[n])}
     # (1) transparency
     k = len(hist.got)
     if hist.got != delivered[:k] or any(
@@ -236,7 +278,7 @@ def judge(case, hist, src, w, close_exc, viol):
     cut = None
     cut_kind = None
     if expected in names:
-        rz = hist.raised.get(expected)
+        rz = raised.get(expected)
         for i, stt in enumerate(hist.state[expected]):
             if stt[0] is True and stt[1] is False:
                 cut, cut_kind = i, 'mismatch'
@@ -250,7 +292,7 @@ def judge(case, hist, src, w, close_exc, viol):
             if cut is not None and cut < op:
                 viol('read_past_cutoff', cut=cut, op=op)
         elif cut is None:
-            culprit = [n for n, r in hist.raised.items() if r[1] is exc]
+            culprit = [n for n, r in raised.items() if r[1] is exc]
             viol('inspector_fault_reached_reader', exc=type(exc).__name__,
                  inspector=culprit[0] if culprit else None, op=op,
                  expected=expected)
@@ -258,14 +300,14 @@ def judge(case, hist, src, w, close_exc, viol):
             if op != cut:
                 viol('cutoff_at_wrong_chunk', cut=cut, op=op, kind=cut_kind)
             if cut_kind == 'raise':
-                if exc is not hist.raised[expected][1]:
+                if exc is not raised[expected][1]:
                     viol('expected_error_replaced', got=type(exc).__name__,
-                         want=type(hist.raised[expected][1]).__name__)
+                         want=type(raised[expected][1]).__name__)
             elif not isinstance(exc, m.ImageFormatError):
                 viol('mismatch_not_imageformaterror',
                      got=type(exc).__name__)
-            if src.reads != cut + 1:
-                viol('source_consumed_after_cutoff', reads=src.reads,
+            if reads != cut + 1:
+                viol('source_consumed_after_cutoff', reads=reads,
                      cut=cut)
     else:
         if cut is not None:
@@ -293,9 +335,9 @@ def judge(case, hist, src, w, close_exc, viol):
              exc=hist.fed_after_finish[0][1],
              finished_after_chunks=hist.finished[hist.fed_after_finish[0][0]])
     # (3) never fed again
-    for n, cnt in hist.after_raise.items():
+    for n, cnt in after_raise.items():
         viol('failed_inspector_fed_again', inspector=n, calls=cnt,
-             failed_at=hist.raised[n][0])
+             failed_at=raised[n][0])
         break
     # (4) no starvation, no duplication, order preserved
     offered_all = list(delivered)
@@ -309,9 +351,9 @@ def judge(case, hist, src, w, close_exc, viol):
         # the inspectors is its own business
         return [c for c in seq if c]
     for n in names:
-        got = hist.eats[n]
-        if n in hist.raised:
-            want = upto_cut[:hist.raised[n][0] + 1]
+        got = eats[n]
+        if n in raised:
+            want = upto_cut[:raised[n][0] + 1]
             ok = got == want or ne(got) == ne(want)
         elif cut is not None and surf is not None and surf[0] == cut:
             # may or may not have been offered the cut chunk (order)
@@ -428,6 +470,7 @@ class C06(Check):
                                    ('double', 1)]) if pers == 'file' else None
         case = {'content': rec, 'pers': pers, 'fam': fam, 'rle': r, 'ask': ask,
                 'debuglog': crng.random() < 0.3, 'read0': pers == 'file',
+                'drain': crng.choice((0, 0, 1, 3)),
                 'expected': expected, 'allowed': allowed, 'order': order,
                 'sweep': sweep, 'faults': [], 'src_fault': None}
         if not sweep:
@@ -508,6 +551,8 @@ class C06(Check):
         self.bump('probes', 'sessions')
         if case.get('debuglog'):
             self.bump('probes', 'debug_logging_rendered')
+        if hist.drained:
+            self.bump('probes', 'reader_went_on_after_abort')
         if src.closed == 1:
             self.bump('probes', 'source_closed_exactly_once')
         self.bump('sim', 'bytes', src.pos)
@@ -541,6 +586,7 @@ class C06(Check):
                 cutkind = 'mismatch'
         log.add('session', [(f['insp'], f['at'], f['phase']) for f in faults],
                 src_fault, case.get('ask'), bool(case.get('debuglog')),
+                case.get('drain'),
                 len(hist.got), src.reads,
                 None if hist.surfaced is None else
                 (hist.surfaced[0], type(hist.surfaced[1]).__name__),
@@ -590,6 +636,10 @@ class C06(Check):
         if case.get('debuglog'):
             c = copy.deepcopy(case)
             c['debuglog'] = False
+            yield c
+        if case.get('drain'):
+            c = copy.deepcopy(case)
+            c['drain'] = 0
             yield c
         sizes = streams.expand(case['rle'])
         tot = sum(sizes)
